@@ -69,11 +69,15 @@ class D(operator.Operator):
             bmatL = compute_bmatrix(tau, sm.k)
             bmatT = bmatL
         else:
-            shift = xp.atleast_1d(xp.asarray(self.k * sm.kvalue))
+            shift = xp.atleast_1d(xp.asarray(self.k))
             ncol = sm.k.shape[-1]
             if shift.shape[-1] < ncol:
                 # same convention as S: missing components are zero
                 shift = np.pad(shift, [(0, 0)] * (shift.ndim - 1) + [(0, ncol - shift.shape[-1])])
+            kvalue = sm.kvalue
+            if not common.isscalar(kvalue):
+                kvalue = xp.asarray(kvalue)[:ncol]  # per-axis units
+            shift = shift * kvalue
             if shift.ndim > 1:
                 # a shift per batch entry: batch axes first, then the state axis
                 nb = shift.ndim - 1
